@@ -474,6 +474,24 @@ pub fn generate(group: &str, r: &mut Rng, n: usize) -> Vec<Value> {
                 out.push(ev("qubo", format!("d-qubo-{k}"), json!({"inst": inst})));
             }
         }
+        "validate" => {
+            for k in 0..n {
+                let mut inst = rand_instance(r, &InstOpts { max_deg: 3, ..DEFAULT });
+                // occasionally fix a variable or attach a hint (well-formed)
+                if r.chance(1, 3) && inst.active.len() >= 1 && inst.used.len() >= 2 {
+                    inst.json["hints"] = json!([{"onehot": [{"cid": inst.active[0], "vars": [inst.used[0], inst.used[1]]}], "sos1": []}]);
+                }
+                if r.chance(1, 4) {
+                    inst.json["params"] = json!([[[5, [1, 2]], [8, [-1, 1]]]]);
+                }
+                out.push(ev("validate", format!("d-validate-{k}"), json!({"inst": inst.json})));
+                out.push(ev("typed", format!("d-typed-{k}"), json!({"inst": inst.json})));
+                out.push(ev("used_ids", format!("d-usedids-{k}"), json!({"inst": inst.json})));
+                let mut p = inst.json.clone();
+                p["parameters"] = json!([{"id": 70, "name": [], "subs": [], "params": [], "desc": []}]);
+                out.push(ev("pvalidate", format!("d-pvalidate-{k}"), json!({"pinst": p})));
+            }
+        }
         other => panic!("unknown generator group {other}"),
     }
     out
